@@ -246,6 +246,11 @@ def run_property(pid, tier, seed, update_lock=False, only=None, verbose=False):
                     confirmed = dict(model=o["model"], text=text if kind == "violation" else "NON-TERMINATION: " + text, detail=o["detail"])
                     break
         e["replays"] = outputs
+        if confirmed is None and e["kind"] == "bounded":
+            bad = [o for o in e["instances"] if o["verdict"] != "proved"]
+            if bad and all(o["verdict"] == "refuted" for o in bad):
+                # a bounded stand-in runs the real code itself: its failing item is the observation
+                confirmed = dict(model=bad[0]["model"], text="bounded stand-in observed on the real code: " + str(bad[0]["detail"]), detail=bad[0]["detail"])
         if confirmed is not None:
             hit = None
             for k in known:
@@ -343,7 +348,7 @@ def run_property(pid, tier, seed, update_lock=False, only=None, verbose=False):
             obligation_instances=total_instances,
             checker_cmd=f"./check {pid} --tier {tier}",
             trusted_base=trusted,
-            functions=[dict(r["extracted"] or {"qualname": r["target"]}, paths=r["paths"], obligations=len({o["name"] for o in r["instances"]}), bounded=r["bounded"], error=r["error"]) for r in reports],
+            functions=[dict(r["extracted"] or {"qualname": r["target"]}, contract=r["target"], wall_s=round(r["wall"], 2), paths=r["paths"], obligations=len({o["name"] for o in r["instances"]}), bounded=r["bounded"], error=r["error"]) for r in reports],
             obligation_log=[dict(name=e["name"], verdict=e["verdict"], backend=e["backend"], seconds=e["seconds"], instances=len(e["instances"])) for e in obl.values()],
             solver_seconds=round(sum(r["solver_seconds"] for r in reports), 2),
             axioms=axioms,
@@ -355,7 +360,7 @@ def run_property(pid, tier, seed, update_lock=False, only=None, verbose=False):
             cross_check=dict(concrete_inputs_replayed_on_real_code=xcheck["inputs"], disagreements=len(xcheck["disagreements"])),
             undecided=undecided,
             samples=samples,
-            explanation=spec.get("explanation", ""),
+            explanation=spec.get("explanation") or (spec.get("claim", "") + " | " + spec.get("note", "")),
             evaluations=total_instances,
             distinct_nontrivial=n_obl,
             rule="one evaluation = one obligation instance (obligation x path) discharged by SMT; distinct = obligation names",
@@ -390,7 +395,7 @@ def run_property(pid, tier, seed, update_lock=False, only=None, verbose=False):
         print(f"UNDECIDED {u}")
     if update_lock and not errors:
         os.makedirs(os.path.join(ROOT, "locks"), exist_ok=True)
-        json.dump(sorted(n for n, e in obl.items() if e["verdict"] == "proved"), open(os.path.join(ROOT, "locks", f"{pid}.json"), "w"), indent=0)
+        json.dump(sorted(n for n, e in obl.items() if e["verdict"] == "proved" and e["kind"] != "bounded"), open(os.path.join(ROOT, "locks", f"{pid}.json"), "w"), indent=0)
         lock = []
     if violations:
         return 1
